@@ -4,12 +4,12 @@ set -e
 cd "$(dirname "$0")"
 export CARGO_NET_OFFLINE=true CARGO_TARGET_DIR="$PWD/.build/cargo"
 mkdir -p .build evidence replays
-[ -f translate/gen_tables.py ] && python3 translate/gen_tables.py
+for g in translate/gen_*.py; do [ -f "$g" ] && python3 "$g"; done
 [ -f translate/errflow/run.sh ] && sh translate/errflow/run.sh
 sh tools/gen_coqproject.sh
 timeout 7200 make -j16 -C coq > .build/coq-build.log 2>&1 || { tail -40 .build/coq-build.log; echo "setup: Coq build failed (checks will report it per property)"; }
 sh tools/build_ocaml.sh || echo "setup: model oracle build failed"
 python3 tools/gen_registry.py
-[ -f harness/Cargo.lock ] || cp /repo/Cargo.lock harness/Cargo.lock
+REPO=${EG_REPO:-/repo}; sed "s#@REPO@#$REPO#g" harness/Cargo.toml.in > harness/Cargo.toml; [ -f harness/Cargo.lock ] || cp $REPO/Cargo.lock harness/Cargo.lock
 (cd harness && cargo build --release --offline 2>&1 | tail -3) || echo "setup: harness build failed"
 echo "setup done"
